@@ -141,6 +141,13 @@ Theorem c12_message_recreate_fresh : forall used, msg_recreate used = repeat fal
 Proof. exact msg_recreate_fresh. Qed.
 Print Assumptions c12_message_recreate_fresh.
 
+(* 8. reusable strings: assigning a std::string (foreign allocator) into an already constructed reusable string - which
+      is what recycling a SwissVector<SwissString> slot does - keeps every byte, embedded NULs included: the operator passes
+      other.size() to assign (regenerated: foreign_assign_len; dropping the argument breaks the translator / this proof). *)
+Theorem c12_string_assign_exact : forall bs, str_assign_foreign bs = bs.
+Proof. exact str_assign_foreign_exact. Qed.
+Print Assumptions c12_string_assign_exact.
+
 (* non-vacuity: the empty vector is well formed; a concrete run exercises the reuse window (constructed > size),
    shifts by move-assignment and reconstructs in place *)
 Example c12_wf_empty : wf empty_vec.
